@@ -59,18 +59,24 @@ from contextlib import contextmanager
 from math import ceil
 from typing import Any, Callable, Iterator
 
+from btclib import bip322
 from btclib.b58 import p2pkh
 from btclib.ecc import bms, dsa, ssa
 from btclib.exceptions import BTClibException, IncompleteMessageError
 from btclib.p2p import Message
-from btclib.script import sig_hash
-from btclib.script.engine import verify_input
+from btclib.script import sig_hash, taproot
+from btclib.script.engine import verify_input, verify_transaction
+from btclib.script.engine.flags import ALL_FLAGS, NO_FLAGS, ScriptFlag
+from btclib.script.script_pub_key import ScriptPubKey
+from btclib.script.witness import Witness
+from btclib.tx.tx import Tx
 from btclib.tx.tx_out import TxOut
 
 from btcsim.core.ctx import Ctx, RunAborted
 from btcsim.gen import keys as gk
 from btcsim.gen import objects as go
 from btcsim.gen import p2pgen as pg
+from btcsim.gen import spends as gs
 from btcsim.ref import psbtmap
 from btcsim.seams import state as st
 from btcsim.seams.disk import ChunkedFeed, SimDisk
@@ -152,7 +158,7 @@ def run(ctx: Ctx) -> None:
     ctx.log("start", part, f"faults={bool(ctx.cfg.get('faults'))}", f"bindings={serving}")
     old = signal.signal(signal.SIGVTALRM, _on_vtalrm)
     try:
-        (_store if part == "store" else _frame)(ctx, Judge(ctx))
+        {"store": _store, "frame": _frame, "spend": _spend}[part](ctx, Judge(ctx))
     finally:
         signal.setitimer(signal.ITIMER_VIRTUAL, 0)
         signal.signal(signal.SIGVTALRM, old)
@@ -227,10 +233,10 @@ def _loss_class(kind: str, key: bytes, value: bytes, finalized: bool, keys: list
         return "sighash-zero"
     if kind == "Psbt" and key == b"\xfb" and value == bytes(4):
         return "version-zero"
-    if not value or (kind == "PsbtIn" and key == b"\x08" and value == b"\x00"):
-        return "empty-value"
     if key[0] in _SINGLETON_TYPES[kind] and any(len(k) > 1 and k[0] == key[0] for k in keys):
         return f"keydata-{key[0]:02x}"  # a type that carries no key data, written with some (it may shadow the plain one)
+    if not value or (kind == "PsbtIn" and key == b"\x08" and value == b"\x00"):
+        return "empty-value"
     return f"type-{key[0]:02x}" if key[0] in _KNOWN_TYPES[kind] else "unknown-pair"
 
 
@@ -397,6 +403,7 @@ def _store(ctx: Ctx, j: Judge) -> None:
         if len(b.raw) <= 100_000:
             built.append(b)
             ctx.log("write:" + kind, _tag(b.raw), ",".join(b.tags), actor="writer")
+    ctx.sample["objects"] = [f"{b.name}:{len(b.raw)}" for b in built]
     disk = SimDisk(ctx)
     image = b"".join(_record(b) for b in built)
     disk.write("store", image)
@@ -630,6 +637,7 @@ def _frame(ctx: Ctx, j: Judge) -> None:
         ctx.log("send:" + (command if built else "?"), command, _tag(payload), actor="sender")
     if not sent:
         raise RunAborted("every drawn message was over the size bound")
+    ctx.sample["messages"] = [f"{s.message.command}:{len(s.octets)}" for s in sent]
     wire = b"".join(s.octets for s in sent)
     starts = [sum(len(s.octets) for s in sent[:i]) for i in range(len(sent) + 1)]
     boundaries = sorted({*starts, *(s + pg.HEADER_SIZE for s in starts[:-1])})
@@ -709,17 +717,78 @@ def _frame(ctx: Ctx, j: Judge) -> None:
 
 
 # ---------------------------------------------------------------------------
+# part B, continued: a stored transaction whose scripts are hostile but whose commitments hold
+# ---------------------------------------------------------------------------
+_EVERY_FLAG = ScriptFlag(sum(f.value for f in ScriptFlag))
+
+
+def _spend(ctx: Ctx, j: Judge) -> None:
+    """The accepted object is handed to every consumer: engine, sighash, sizes and ids, BIP322."""
+    ch = ctx.ch
+    pool = go.Pool(ch)
+    for _ in range(1 + ch.draw(6, "spend.ntx")):
+        spends = [gs.spend(ch, pool, ch.pick(gs.FORMS, "spend.form")) for _ in range(1 + ch.draw(2, "spend.nin"))]
+        raw, values = gs.spending_tx(ch, spends)
+        form0 = spends[0].form
+        with ctx.must_succeed(P5, "parse-equals-object", "Tx.parse/hostile-spend"):
+            tx = Tx.parse(io.BytesIO(raw))
+            again = tx.serialize(include_witness=True)
+        j.check(P5, "serialize-equals-writer", again == raw, lambda: _diff(raw, again), "Tx.parse/hostile-spend")
+        ctx.log("spend-tx", _tag(raw), *(f"{s.form}/{s.kind}" for s in spends), actor="writer")
+        prevouts = [TxOut(v, s.spk, check_validity=False) for v, s in zip(values, spends)]
+        flag_sets = [None, NO_FLAGS, _EVERY_FLAG, ALL_FLAGS & ~ScriptFlag.TAPROOT, ScriptFlag(ch.draw(_EVERY_FLAG.value + 1, "spend.flags"))]
+        for i, s in enumerate(spends):
+            if s.form == "p2tr":
+                ok, proven = j.call("taproot.check_output_pubkey/p2tr", lambda s=s: taproot.check_output_pubkey(s.spk[2:], s.script, s.control))
+                j.check(P19, "predicate-total", lambda: ok and isinstance(proven, bool), lambda: f"answered {proven!r}", "taproot.check_output_pubkey/p2tr")
+                ctx.probe("commitment-proven:p2tr" if ok and proven else "commitment-not-proven:p2tr")
+            for flags in flag_sets:
+                ok, refusal = j.call(f"engine.verify_input/{s.form}", lambda i=i, flags=flags: verify_input(prevouts, tx, i, flags))
+                ctx.probe(f"spend-{'verified' if ok else 'refused'}:{s.form}")
+                ctx.state(f"{s.form}:{s.kind}:{'ok' if ok else type(refusal).__name__}")
+            hash_type = ch.pick([1, 0, 2, 3, 0x81, 0x83, 0x42], "spend.hashtype")
+            j.call(f"sig_hash.from_tx/{s.form}", lambda i=i: sig_hash.from_tx(prevouts, tx, i, hash_type))
+            _bip322(ctx, j, s)
+        for flags in flag_sets[:3]:
+            j.call(f"engine.verify_transaction/{form0}", lambda flags=flags: verify_transaction(prevouts, tx, flags, bool(ch.draw(2, "spend.amounts"))))
+        j.call(f"Tx.size/{form0}", lambda: (tx.size, tx.weight, tx.vsize, tx.id, tx.hash, tx.sig_op_count))
+        j.call(f"Tx.to_dict/{form0}", lambda: json.dumps(tx.to_dict(check_validity=False)))
+
+
+def _bip322(ctx: Ctx, j: Judge, s: gs.Spend) -> None:
+    """The same script and stack as the BIP322 signature of a message for the output's address."""
+    msg = ctx.ch.nbytes(ctx.ch.draw(20, "bip322.msglen"), "bip322.msg")
+    addr = ScriptPubKey(s.spk).address
+    witness = Witness(s.witness, check_validity=False)
+    if s.script_sig:  # the full variant: a to_sign transaction carrying the script_sig
+        sig = bip322.Sig(bip322.to_sign(bip322.to_spend(msg, s.spk), s.script_sig, witness))
+    else:
+        sig = bip322.Sig(witness)
+    for what, given in (("object", sig), ("text", sig.b64encode())):
+        site = f"bip322.verify/{s.form}"
+        ok, answer = j.call(site, lambda given=given: bip322.verify(msg, addr, given))
+        j.check(P19, "predicate-total", lambda: ok and isinstance(answer, bool), lambda: f"{what}: answered {answer!r}", site)
+        ctx.probe(f"bip322-{answer if ok else 'raised'}:{s.form}")
+
+
+# ---------------------------------------------------------------------------
 # check definitions
 # ---------------------------------------------------------------------------
-def _plans(tier: str) -> list[Any]:
-    from btcsim.core.runner import Plan  # noqa: PLC0415
+def _plans(prop: str) -> Any:
+    def plans(tier: str) -> list[Any]:
+        from btcsim.core.runner import Plan  # noqa: PLC0415
 
-    return [
-        Plan("wire", {"part": "store", "faults": True}, share=4.0, chunk=10, label="wire/store+faults"),
-        Plan("wire", {"part": "frame", "faults": True}, share=3.0, chunk=10, label="wire/frame+faults"),
-        Plan("wire", {"part": "store", "faults": False}, share=1.5, chunk=20, label="wire/store"),
-        Plan("wire", {"part": "frame", "faults": False}, share=1.5, chunk=20, label="wire/frame"),
-    ]
+        out = [
+            Plan("wire", {"part": "store", "faults": True}, share=4.0, chunk=10, label="wire/store+faults"),
+            Plan("wire", {"part": "frame", "faults": True}, share=3.0, chunk=10, label="wire/frame+faults"),
+            Plan("wire", {"part": "store", "faults": False}, share=1.5, chunk=20, label="wire/store"),
+            Plan("wire", {"part": "frame", "faults": False}, share=1.5, chunk=20, label="wire/frame"),
+        ]
+        if prop == P19:
+            out.append(Plan("wire", {"part": "spend", "faults": True}, share=3.0, chunk=10, label="wire/spend"))
+        return out
+
+    return plans
 
 
 _RULE = (
@@ -734,10 +803,16 @@ _RULE = (
     "(actor, event, fault) sequence; non-trivial = at least one fault fired."
 )
 
+_RULE_SPEND = (
+    " Part spend: 1-6 transactions of 1-2 inputs, each spending a p2sh / p2wsh / p2sh-p2wsh / p2tr-script-path output whose "
+    "commitment is computed around an arbitrary inner script (random octets; a short sequence over all 256 opcode byte values; "
+    "a valid little script with one byte replaced) and an arbitrary initial stack, verified under five flag sets."
+)
+
 CHECKS = {
     "C05": {
         "level": "fault_enumeration",
-        "plans": _plans,
+        "plans": _plans(P5),
         "rule": _RULE,
         "assumptions": [
             "an input with a final script_sig or witness serializes without the fields BIP174's finalizer consumed (documented in psbt_in.py): those pairs are exempt from psbt-keeps-pairs",
@@ -748,8 +823,8 @@ CHECKS = {
     },
     "C19": {
         "level": "fault_enumeration",
-        "plans": _plans,
-        "rule": _RULE,
+        "plans": _plans(P19),
+        "rule": _RULE + _RULE_SPEND,
         "assumptions": [
             "the hang guard is a per-call CPU budget of 10 s (ITIMER_VIRTUAL); inputs are capped at 100 kB",
             "predicates are fed inputs of their declared types only (octets, text, Sig objects built with check_validity=False)",
